@@ -771,3 +771,14 @@ impl CpcSketch {
         }
     }
 }
+
+#[cfg(feature = "verif-hooks")]
+impl CpcSketch {
+    /// Verification hook: raw slots of the surprising-value table (u32::MAX = empty), in slot order.
+    pub fn verif_table_slots(&self) -> Vec<u32> {
+        match &self.surprising_value_table {
+            Some(t) => t.slots().to_vec(),
+            None => vec![],
+        }
+    }
+}
